@@ -168,6 +168,12 @@ func verifC15Stale() {
 	h.t.updateCommit([]byte{byte(4 + vrt.Choice("commit", 2))}) // the root moves to m1 or m2
 	vrt.Cover("root-moved", h.t.Root != root)
 	vrt.Cover("stale-orphan-head", vs <= h.t.Root.In.GetProposalView())
+	// a proposal stored under the new root is delivered once more (a fresh object with the same content)
+	if d := vrt.Choice("redeliver", 4); d > 0 {
+		i := 2 + d // m3, m4 or m5: below the new root (m1 or m2)
+		deliver(mk(byte(i), byte(i-1), mv[i], mv[i-1]))
+		h.checkInvariants("redelivery")
+	}
 	deliver(C)
 	deliver(PA)
 	// every delivered proposal above the root's view is stored: under the root, or as an orphan whose parent is missing
